@@ -473,6 +473,7 @@ type c20Hist struct {
 	short int                           // of which during a shortage
 	out   c20Out
 	err   error
+	known string // id of the known-finding class the history lies in, if any
 }
 
 type c20File struct {
@@ -916,8 +917,9 @@ func (h *c20Hist) toCase() hx.Case {
 		Desc: map[string]interface{}{"cache": h.kind, "reconfigurations": h.nconf, "during_shortage": h.short,
 			"unit": fmt.Sprintf("one auto-refresh cache = %d descriptors, %d goroutines", h.out.UnitFd, h.out.UnitGor), "history": desc},
 		Key:        strings.ReplaceAll(string(key), h.root, ""),
-		Nontrivial: h.nconf >= 2,
+		Nontrivial: h.nconf >= 2 || h.known != "",
 		Class:      class,
+		Known:      h.known,
 	}
 }
 
